@@ -383,7 +383,7 @@ pub fn run(ctx: &Ctx) -> PropResult {
     let mut meta = PropMeta::default();
     meta.exhaustive = true;
     meta.rule = format!(
-        "ALL 172 799 offsets x {} stratified instants (era boundary, leap day, year end, range ends ∓1 day, month ends, end-of-day times) + random (instant, offset) pairs incl. the offsets that carry the local date across midnight; per case: set_offset keeps instant/timestamp/==/cmp/*_since/duration, get_offset, all 11 getters and format(\"{}\") equal the model fields of instant+offset, as_offset keeps the displayed fields and moves the instant by −offset. Time: all offsets x {} times (wrap-around both ways). Time additionally at stored times whose local reading is exactly midnight ± 1 ns for each offset; random API walks with judged set_offset/as_offset steps. Offset::from_seconds over every integer in −86 420..=86 420 + extremes; from_hms grids; resolve/resolve_hms return what was given. Non-trivial = the local date differs from the UTC date or the offset has seconds (DateTime); every Time/constructor case. Distinct by input hash. (exhaustive over the offset domain, sampled over instants) as_offset is also applied to receivers that already carry an offset (the same one and a different one): the instant must move by minus the new offset whatever the receiver carried.",
+        "ALL 172 799 offsets x {} stratified instants (era boundary, leap day, year end, range ends ∓1 day, month ends, end-of-day times) + random (instant, offset) pairs incl. the offsets that carry the local date across midnight; per case: set_offset keeps instant/timestamp/==/cmp/*_since/duration, get_offset, all 11 getters and format(\"{}\") equal the model fields of instant+offset, as_offset keeps the displayed fields and moves the instant by −offset. Time: all offsets x {} times (wrap-around both ways). Time additionally at stored times whose local reading is exactly midnight ± 1 ns for each offset; random API walks with judged set_offset/as_offset steps. Offset::from_seconds over every integer in −86 420..=86 420 + extremes; from_hms grids; resolve/resolve_hms return what was given. Non-trivial = the local date differs from the UTC date or the offset has seconds (DateTime); every Time/constructor case. Distinct by input hash. (exhaustive over the offset domain, sampled over instants) as_offset is also applied to receivers that already carry an offset (the same one and a different one): the instant must move by minus the new offset whatever the receiver carried. to_string() is compared with the shifted value's as well; relations of TWO instants (==, cmp, all *_since, duration_between, timestamps) read the same before and after attaching different offsets, half of the pairs closer together than the offsets differ.",
         per, PATTERN, tper
     );
     meta.required_bins = vec![
